@@ -172,6 +172,13 @@ let () =
       else begin
         let toks = String.split_on_char ' ' line in
         match toks with
+        | ["wspec"; o] ->
+            let kf = List.assoc_opt (nat_of_int (int_of_string o)) !st in
+            (match kf with
+             | None -> print_endline "noobj"
+             | Some kf ->
+                 let b x = if x then 1 else 0 in
+                 Printf.printf "writable=%d render=%d wf=%d roundtrip=%d\n" (b (writable kf)) (b (chk_render kf)) (b (chk_wf kf)) (b (chk_roundtrip kf)))
         | ["grammar"; o; path; dl; cm; ast] ->
             let (s', r) = grammar_cmd !st (nat_of_int (int_of_string o)) dl cm ast path in
             st := s'; print_endline r
